@@ -194,6 +194,23 @@ func enumPaths(f *ssa.Function, limit int) (paths []Path, ok bool) {
 	var cur Path
 	// env: boolean values known on the current path (branch decisions taken, φs of booleans whose incoming
 	// value is known, negations); a branch whose condition is known is followed on that side only
+	// src: for the φs met on the current path, the value that came in (so that a branch on the φ
+	// is also a decision about that value: `bad := a || b; if !bad` decides b on the path through b)
+	src := map[ssa.Value]ssa.Value{}
+	// resolve: the constant a value is known to be on the current path (a φ whose incoming value is one)
+	resolve := func(v ssa.Value) *ssa.Const {
+		for hop := 0; hop < 6; hop++ {
+			if k, isK := v.(*ssa.Const); isK {
+				return k
+			}
+			in, had := src[v]
+			if !had {
+				return nil
+			}
+			v = in
+		}
+		return nil
+	}
 	var val func(env map[ssa.Value]bool, v ssa.Value, d int) (bool, bool)
 	val = func(env map[ssa.Value]bool, v ssa.Value, d int) (bool, bool) {
 		if d > 6 {
@@ -203,6 +220,18 @@ func enumPaths(f *ssa.Function, limit int) (paths []Path, ok bool) {
 			return b, true
 		}
 		switch x := v.(type) {
+		case *ssa.BinOp:
+			// a comparison of two values that are constants on this path (a variable set to a literal in
+			// each case of a switch and tested afterwards)
+			if x.Op == token.EQL || x.Op == token.NEQ {
+				a, b := resolve(x.X), resolve(x.Y)
+				if a != nil && b != nil && a.Value != nil && b.Value != nil {
+					if _, isPhiX := x.X.(*ssa.Phi); isPhiX || func() bool { _, p := x.Y.(*ssa.Phi); return p }() {
+						eq := constant.Compare(a.Value, token.EQL, b.Value)
+						return eq == (x.Op == token.EQL), true
+					}
+				}
+			}
 		case *ssa.Const:
 			if x.Value != nil && (x.Value.String() == "true" || x.Value.String() == "false") {
 				return x.Value.String() == "true", true
@@ -216,9 +245,6 @@ func enumPaths(f *ssa.Function, limit int) (paths []Path, ok bool) {
 		}
 		return false, false
 	}
-	// src: for the boolean φs met on the current path, the value that came in (so that a branch on the φ
-	// is also a decision about that value: `bad := a || b; if !bad` decides b on the path through b)
-	src := map[ssa.Value]ssa.Value{}
 	var walk func(b, prev *ssa.BasicBlock, env map[ssa.Value]bool)
 	walk = func(b, prev *ssa.BasicBlock, env map[ssa.Value]bool) {
 		if !ok {
